@@ -1408,13 +1408,26 @@ std::string formDescriptionOfCyclicDependency(const History &history, const std:
     return msgHeader + msgHistory;
 }
 
+/**
+ * @brief Test whether a node is a comment or a blank text node.
+ *
+ * Whether libxml2 keeps a blank text node (e.g. the white space between two
+ * comments) depends on a process-wide setting that other calls change, so
+ * blank text nodes are never counted as content.
+ */
+static bool isCommentOrBlankText(const XmlNodePtr &node)
+{
+    return node->isComment()
+           || (node->isText() && node->convertToStrippedString().empty());
+}
+
 size_t nonCommentChildCount(const XmlNodePtr &node)
 {
     size_t res = 0;
     auto childNode = node->firstChild();
 
     while (childNode != nullptr) {
-        if (!childNode->isComment()) {
+        if (!isCommentOrBlankText(childNode)) {
             ++res;
         }
 
@@ -1426,16 +1439,16 @@ size_t nonCommentChildCount(const XmlNodePtr &node)
 
 XmlNodePtr nonCommentChildNode(const XmlNodePtr &node, size_t index)
 {
-    // Note: we assume that there is always a non-comment child at the given
-    //       index, hence we never test res for nullptr.
+    // Note: we assume that there is always a non-comment (and non-blank) child
+    //       at the given index, hence we never test res for nullptr.
 
     auto res = node->firstChild();
-    auto childNodeIndex = res->isComment() ? MAX_SIZE_T : 0;
+    auto childNodeIndex = isCommentOrBlankText(res) ? MAX_SIZE_T : 0;
 
     while (childNodeIndex != index) {
         res = res->next();
 
-        if (!res->isComment()) {
+        if (!isCommentOrBlankText(res)) {
             ++childNodeIndex;
         }
     }
